@@ -161,6 +161,8 @@ def run_c15(ctx, tier=None, seed=None):
     # only shared base units may compile there)
     std_pipe(ctx, 'ops-from-noauto', 'wide-noauto', 'ops', 'all', tier=tier, seed=seed, only=r'^from ')
     mixed_base_programs(ctx, select='.into()')
+    # "a bare number converts to and from a ratio unchanged": all 13 storage types incl. complex, two base-unit sets
+    std_pipe(ctx, 'ratio-number', 'wide', 'convx', 'num', tier=tier, seed=seed, shards=1)
 
 
 spec('C15', run=run_c15, search=search_with(run_c15),
@@ -293,7 +295,15 @@ TEMP = '(thermodynamic_temperature|temperature_interval)'
 
 
 def run_c08(ctx, tier=None, seed=None):
-    std_pipe(ctx, 'convx-exact', 'wide', 'convx', 'exact', tier=tier, seed=seed, env=deep(ctx, tier, VERIF_N=1500))
+    if not cargo_build(ctx, 'wide', ['convx']):
+        return
+    dump = lean_dump(ctx)
+    if dump is None:
+        return
+    # the unit table precedes the cases: what arbitrary-precision storage publishes for a unit is compared with its declaration
+    res = pipe(ctx, 'convx-exact', '{ cat %s; %s exact; }' % (dump, bin_path('convx', False, 'wide')), tier=tier, seed=seed,
+               env=deep(ctx, tier, VERIF_N=1500))
+    absorb(ctx, res, 'convx-exact')
 
 
 spec('C08', run=run_c08, search=search_with(run_c08),
@@ -741,7 +751,7 @@ def run_c02(ctx, tier=None, seed=None):
         for f in probes.FORMS + ['sqrt', 'cbrt', 'neg']:
             cases.append((f, a, a, 1))
         for b in cl[x][1:2]:  # same type, other quantity module: foreign units are still rejected
-            for f in ('newf', 'getf', 'letbind', 'add', 'eq', 'from'):
+            for f in ('newf', 'getf', 'fmtargs', 'fmtwith', 'floorf', 'letbind', 'add', 'eq', 'from'):
                 cases.append((f, a, b, 0))
     pdir = os.path.join(VERIF, 'build', 'probes02')
     os.makedirs(pdir, exist_ok=True)
@@ -781,8 +791,8 @@ def run_c02(ctx, tier=None, seed=None):
 
 
 spec('C02', run=run_c02, search=None,
-     rule='one probe function per (form, class pair): 19 forms (+ − % += −= %= == < partial_cmp Ord::max let-binding hypot atan2 new::<foreign> get::<foreign> From/Into saturating_add saturating_sub Sum) × '
-          '400 seeded + all same-dimension-different-kind ordered pairs of the (dimension, kind) classes of the SI (thorough: all pairs), 22 forms on every class with itself '
+     rule='one probe function per (form, class pair): 22 forms (+ − % += −= %= == < partial_cmp Ord::max let-binding hypot atan2 new::<foreign> get::<foreign> into_format_args(foreign) format_args(foreign).with floor::<foreign> From/Into saturating_add saturating_sub Sum) × '
+          '400 seeded + all same-dimension-different-kind ordered pairs of the (dimension, kind) classes of the SI (thorough: all pairs), 25 forms on every class with itself '
           '(positive controls, marker-dependent forms, sqrt/cbrt/neg), same-type-different-module pairs; rustc’s verdict per function (primary error span → function) compared '
           'with the acceptance relation; 24 mixed-base programs (all operator forms, hypot, mul_add, temperature arithmetic, kind conversions) under autoconvert on/off; non-trivial: the two types differ',
      trusted_base=['rustc is the implementation under test; a probe is “rejected” when an error’s primary span lies in its line'],
